@@ -165,7 +165,7 @@ type FaultCase struct {
 	Files   int     `json:"files"`
 	K       int64   `json:"fault_at_operation"` // 1-based index among the operations of the second Store
 	Fault   string  `json:"fault"`              // error | short | revoke | silent (a write persists half yet reports success)
-	// AssertHashFault disables the exclusion of known finding C16-R19 (set by its replay only)
+	// AssertHashFault: kept for the replay of C16-R19 (repaired: its fault points are no longer set aside)
 	AssertHashFault bool `json:"assert_hash_fault,omitempty"`
 	// At names the operation to fail by what it is instead of by its index (replays only; K is then ignored):
 	// "hash-side-file-open" = the opening (for writing) of the remote .hash side file; "archive-write" = the first write of the
@@ -282,11 +282,6 @@ func checkFault(t ev.T, test string, c FaultCase) (skipped string) {
 	// of the package into the remote entry (anywhere else nothing could notice it)
 	if c.Fault == "silent" && (!strings.HasPrefix(h.Path, e.remote+string(filepath.Separator)) || strings.HasSuffix(h.Path, ".hash") || strings.HasPrefix(h.Path, e.lockDir())) {
 		return "silent data loss outside the verified transfer"
-	}
-	// known finding C16-R19: the mutable cache trusts a stale <package>.hash side file
-	if c.Cache == "mutable" && c.Fault != "revoke" && isHashSideFile(h, e.remote) && !c.AssertHashFault {
-		ev.Exclude("C16-R19 a write of the remote .hash side file failed during a Store of the mutable cache")
-		return "known finding C16-R19"
 	}
 	crashed := c.Fault == "revoke"
 	if crashed {
@@ -458,11 +453,6 @@ func checkFetchFault(t ev.T, test string, c FetchFaultCase) (skipped string) {
 	var ferr2 error
 	ev.Guard(t, prop, test, c, func() { ferr2 = r2.Fetch(ctx, key, dest2) })
 	if ferr2 != nil {
-		// a failed operation on the side file may leave it stale or missing (C16-R19's mechanism, reached from the Fetch side)
-		if isHashSideFile(h, e.remote) || strings.HasSuffix(h.Path, ".hash") {
-			ev.Exclude("C16-R19 a write of the remote .hash side file failed (during a Fetch)")
-			return "known finding C16-R19"
-		}
 		ev.Fail(t, prop, test, c, "after a Fetch during which one operation failed, a later fault-free Fetch by another client fails: %v. %s", ferr2, what)
 	} else if id, detail := identify(e.box, dest2, e.versions, e.sources); id != 2 {
 		ev.Fail(t, prop, test, c, "after a Fetch during which one operation failed, a later fault-free Fetch installs version %d (%s) instead of version 2. %s", id, detail, what)
@@ -578,7 +568,6 @@ func checkSeq(t ev.T, test string, c SeqCase) {
 			stored[op.Version] = true
 			var n int64
 			faulted := false
-			hashFault := false
 			if op.FaultOn != "" {
 				parts := strings.SplitN(op.FaultOn, ":", 2)
 				kind, nth := strings.TrimSuffix(parts[0], "-of-the-entry"), int64(1)
@@ -615,9 +604,6 @@ func checkSeq(t ev.T, test string, c SeqCase) {
 						return nil
 					}
 					faulted = true
-					if isHashSideFile(o, e.remote) {
-						hashFault = true
-					}
 					if op.Fault == "short" && (o.Kind == "write" || o.Kind == "writestring") {
 						return &fsx.Fault{Kind: "short"}
 					}
@@ -629,10 +615,6 @@ func checkSeq(t ev.T, test string, c SeqCase) {
 			}
 			err := cl.cache.Store(ctx, key, spell(e.srcDir[op.Version], c.SrcSpelling))
 			e.box.Backend.FaultAt = nil
-			if hashFault && c.Cache == "mutable" && op.Fault != "revoke" {
-				ev.Exclude("C16-R19 a write of the remote .hash side file failed during a Store of the mutable cache")
-				return
-			}
 			if faulted && op.Fault == "revoke" {
 				cl.dead = true
 				cl.cl.Revoke()
